@@ -34,6 +34,7 @@ class Resolver:
         self.unresolved = 0
         self.resolved = 0
         self.external = 0
+        self.parse_args_targets = None     # None: every Action of the repository; else an explicit list of FuncInfo
 
     # ------------------------------------------------------------------
     def helper_methods(self, name):
@@ -159,7 +160,8 @@ class Resolver:
                 if hs:
                     return hs, None
             if m == "parse_args":
-                return self.action_calls(), "argparse.ArgumentParser.parse_args"
+                acts = self.action_calls() if self.parse_args_targets is None else list(self.parse_args_targets)
+                return acts, "argparse.ArgumentParser.parse_args"
             # super().__init__ etc.
             if isinstance(recv, ast.Call) and isinstance(recv.func, ast.Name) and recv.func.id == "super" and fi.cls is not None:
                 for c in prog.mro(fi.cls)[1:]:
